@@ -297,7 +297,8 @@ impl Scenario for Sweep {
         idempotence(&mut d, &mut vs);
         vs.extend(d.violations.clone());
         out.nontrivial = true;
-        out.signature = d.sig.0;
+        // every enumerated sequence is a distinct case: the signature is the concrete event log
+        out.signature = d.log.0;
         out.log_hash = d.log.0;
         out.stats.merge(&d.stats);
         out.violations = vs;
